@@ -369,9 +369,10 @@ def _diff_pairs(ctx):
                 if i % 3 == 0 and a.date() < b.date():
                     out.append((f"precise_diff({a.date()}, {b.date()})", a.date(), b.date(), a.date(), b.date()))
     tz0, tz5, tzm3 = _dt.timezone(_dt.timedelta(0)), _dt.timezone(_dt.timedelta(hours=5, minutes=30)), _dt.timezone(_dt.timedelta(hours=-3))
+    tzm330, tz1, tzm945 = _dt.timezone(-_dt.timedelta(hours=3, minutes=30)), _dt.timezone(_dt.timedelta(hours=1)), _dt.timezone(-_dt.timedelta(hours=9, minutes=45))
     for a in base[::3]:
         for b in base[1::4]:
-            for ta, tb in ((tz5, tz5), (tz0, tz5), (tz5, tzm3), (tzm3, tz0)):
+            for ta, tb in ((tz5, tz5), (tz0, tz5), (tz5, tzm3), (tzm3, tz0), (tzm330, tz1), (tz1, tzm945)):         # (negative offsets that are not whole hours: -03:30, -09:45)
                 aa, bb = a.replace(tzinfo=ta), b.replace(tzinfo=tb)
                 if not aa < bb:
                     continue
@@ -1115,8 +1116,44 @@ def _py_utc_shift(ctx, m: core.Mod, fn: ast.FunctionDef) -> None:
     ctx.ob("UTCSHIFT.when", "py:precise_diff/in_same_tz", ok, f"in_same_tz = {[nun(x.value) for x in flag]}; same zone means equal, known zone names", m.loc(fn))
 
 
+def _memo_keys(ctx) -> None:
+    """MEMO.instants: a memoising decorator (functools.lru_cache / cache) keys its table by `==` and hash() of the arguments, and two aware
+    datetimes are equal when they denote the same instant - whatever their zones and wall clocks.  A function of dates / datetimes whose
+    result depends on the wall clock (it decomposes them with precise_diff or reads their calendar fields) must therefore not be memoised
+    on them: the breakdown computed for one zone would be handed out for the same instants in another (31 Jan .. 28 Feb in Tokyo is one
+    month, the same instants in New York are 30 Jan .. 27 Feb: four weeks).  Every function of the modules that build intervals and
+    differences is looked at; a memoised function that only orders or compares instants is no finding."""
+    wall = {"year", "month", "day", "hour", "minute", "second", "microsecond", "fold", "tzinfo", "weekday", "isoweekday", "toordinal", "timetuple", "isocalendar", "utcoffset"}
+    temporal = ("date", "datetime", "time", "DateTime", "Date", "Time", "_T")
+    seen = 0
+    for name in ("interval", "_helpers", "helpers", "datetime", "date", "time", "duration"):
+        try:
+            m = pmod(name)
+        except core.AnchorMissing:
+            continue
+        for fn in [n for n in ast.walk(m.tree) if isinstance(n, ast.FunctionDef)]:
+            decos = [core.dotted(d.func if isinstance(d, ast.Call) else d) or "" for d in fn.decorator_list]
+            memo = [d for d in decos if d.split(".")[-1] in ("lru_cache", "cache")]
+            if not memo:
+                continue
+            seen += 1
+            params = [a for a in fn.args.args + fn.args.kwonlyargs if a.arg not in ("self", "cls")]
+            typed = [a.arg for a in params if a.annotation is not None and any(t in re.findall(r"[A-Za-z_]+", un(a.annotation)) for t in temporal)]
+            names = {a.arg for a in params}
+            reads_wall = any(isinstance(n, ast.Attribute) and isinstance(n.value, ast.Name) and n.value.id in names and n.attr in wall for n in ast.walk(fn))
+            decomposes = any(isinstance(n, ast.Call) and (core.dotted(n.func) or "").split(".")[-1] in ("precise_diff", "PreciseDiff") and
+                             any(isinstance(a, ast.Name) and a.id in names for a in n.args) for n in ast.walk(fn))
+            bad = bool(typed) and (reads_wall or decomposes)
+            ctx.ob("MEMO.instants", f"{name}.{fn.name}", not bad,
+                   f"@{memo[0]} on {fn.name}({', '.join(a.arg for a in params)})" + (f": the parameters {typed} are dates / datetimes, equal (and hashed alike) whenever they denote "
+                   f"the same instant, while the result {'is their calendar breakdown' if decomposes else 'reads their wall clock fields'}: the value cached for one zone is returned for "
+                   f"the same instants in another" if bad else ": not keyed by values whose wall clock the result depends on"), m.loc(fn))
+    ctx.count("memoised_functions", seen)
+
+
 def run(ctx) -> None:
     ctx.explanation = EXPLANATION
+    ctx.step(_memo_keys, ctx)
     hm = pmod("_helpers")
     fn = hm.func("precise_diff")
     ctx.step(_py_diff_tabulate, ctx)
